@@ -265,7 +265,8 @@ theorem cycleStep_wpos (swr : Swr) (env : Env) (w : World) (sc : Sched) (F : Lis
     | true => rfl
     | false => simp only [Bool.false_eq_true, if_false]; rw [resizes_explore]; rfl
 
-theorem nonNeg_inputOf (env : Env) (w : World) (hw : WPos env w) : NonNeg (inputOf env w [] false) := by
+theorem nonNeg_inputOf_f (env : Env) (w : World) (F : List Fault) (b : Bool) (hw : WPos env w) :
+    NonNeg (inputOf env w F b) := by
   constructor
   · intro p hpm st hst e he
     obtain ⟨k, hk⟩ := List.getElem?_of_mem hpm
@@ -273,11 +274,15 @@ theorem nonNeg_inputOf (env : Env) (w : World) (hw : WPos env w) : NonNeg (input
       have := (List.getElem?_eq_some_iff.mp hk).1
       rw [inputOf_probes_length] at this; exact this
     have hrk : w.running[k]? = some w.running[k] := by simp [hkl]
-    have := inputOf_probe env w k _ hrk
+    have := inputOf_probe_f env w F b k _ hrk
     rw [hk] at this
     cases this
     have hst' : st = statusOf w.running[k] := by
-      simp [probeOf] at hst; exact hst.symm
+      unfold probeOf at hst
+      simp only at hst
+      split at hst
+      · cases hst
+      · simp at hst; exact hst.symm
     subst hst'
     unfold statusOf at he
     obtain ⟨q, hq, rfl⟩ := List.mem_map.mp he
@@ -286,6 +291,9 @@ theorem nonNeg_inputOf (env : Env) (w : World) (hw : WPos env w) : NonNeg (input
     obtain ⟨p1, p2, _⟩ := (hw.pos _ hsh).st q.1 q.2 hg
     exact ⟨p1, p2⟩
   · exact hw.expl
+
+theorem nonNeg_inputOf (env : Env) (w : World) (hw : WPos env w) : NonNeg (inputOf env w [] false) :=
+  nonNeg_inputOf_f env w [] false hw
 
 /-- the coordinator sees an unheld target through the explorer's estimate -/
 theorem unheld_global (env : Env) (w : World) (h : Hash) (e : St) (hn : ¬ Held w h) (he : w.explore.get h = some e) :
@@ -426,6 +434,7 @@ theorem step_wpos (swr : Swr) (env : Env) (hmm : env.opt.minShard ≤ env.opt.ma
       | .cycle _ _ _ => true
       | .scrape _ _ r => (match r with | some (a, b) => decide (0 ≤ a) && decide (0 ≤ b) | none => true)
       | .restart _ => true
+      | .discover _ explore => explore.all fun e => decide (0 ≤ e.2.series) && decide (0 ≤ e.2.total)
       | _ => false) = true)
     (hw : WPos env w) : WPos env (step swr env w op) := by
   cases op with
@@ -444,6 +453,103 @@ theorem step_wpos (swr : Swr) (env : Env) (hmm : env.opt.minShard ≤ env.opt.ma
     exact ⟨h1, h2, by show ∀ e ∈ (onShard w j _).explore, _; rw [h3]; exact hw.expl⟩
   | update j req => cases hb
   | setReplicas n => cases hb
-  | discover active explore => cases hb
+  | discover active explore =>
+    simp only [List.all_eq_true, Bool.and_eq_true, decide_eq_true_eq] at hb
+    exact ⟨⟨⟨hw.rep, hw.all⟩, hw.max⟩, hw.pos, hb⟩
+
+/-- the operations of `step_wpos` -/
+def tame : Op → Bool
+  | .cycle _ _ _ => true
+  | .scrape _ _ r => (match r with | some (a, b) => decide (0 ≤ a) && decide (0 ≤ b) | none => true)
+  | .restart _ => true
+  | .discover _ explore => explore.all fun e => decide (0 ≤ e.2.series) && decide (0 ≤ e.2.total)
+  | _ => false
+
+theorem run_wpos (swr : Swr) (env : Env) (hmm : env.opt.minShard ≤ env.opt.maxShard) :
+    ∀ (ops : List Op) (w : World), (∀ op ∈ ops, tame op = true) → WPos env w → WPos env (run swr env w ops) := by
+  intro ops
+  induction ops with
+  | nil => intro w _ hw; exact hw
+  | cons op ops ih =>
+    intro w hb hw
+    refine ih (step swr env w op) (fun o ho => hb o (List.mem_cons_of_mem _ ho)) (step_wpos swr env hmm w op ?_ hw)
+    have := hb op List.mem_cons_self
+    cases op <;> exact this
+
+/-- **the coordinator never crashes on what sidecars can report.**  After every history of cycles
+    (any faults), scrapes that deliver non-negative counts, restarts and discovery changes with
+    non-negative estimates — starting from freshly started sidecars — a coordination cycle with any
+    fault pattern completes without crashing (max-process-series ≠ 0). -/
+theorem no_crash_along_history (swr : Swr) (env : Env) (hmm : env.opt.minShard ≤ env.opt.maxShard)
+    (hmp : env.opt.maxProc ≠ 0) (n : Nat) (active : List Hash) (explore : AL St) (hn : (n : Int) ≤ env.opt.maxShard)
+    (he : ∀ e ∈ explore, 0 ≤ e.2.series ∧ 0 ≤ e.2.total) (ops : List Op) (hops : ∀ op ∈ ops, tame op = true)
+    (sc : Sched) (F : List Fault) (b : Bool) :
+    (cycle swr sc (inputOf env (run swr env
+      { shards := List.replicate n freshShard, replicas := n, active := active, explore := explore } ops) F b)).crashed = false :=
+  cycle_noCrash swr sc _ hmp (nonNeg_inputOf_f env _ F b (run_wpos swr env hmm ops _ hops (wpos_fresh env n active explore hn he)))
+
+end Kvass.Loop
+
+namespace Kvass.Loop
+open Kvass Kvass.Coord Kvass.Spec
+
+/-- every hash at most once in an update request (what the JSON body of `POST targets` gives) -/
+def onceB (req : List Sidecar.Tgt) : Bool :=
+  req.all fun t => (req.filter fun u => u.hash == t.hash).length == 1
+
+/-- every operation of the closed-loop model, with the side conditions under which sizes stay
+    non-negative and the StatefulSet within max-shard: scrapes deliver non-negative counts, estimates
+    are non-negative, an assignment written from outside lists every hash once with non-negative
+    sizes, an external resize stays within max-shard -/
+def wellFormedOp (env : Env) : Op → Bool
+  | .cycle _ _ _ => true
+  | .scrape _ _ r => (match r with | some (a, b) => decide (0 ≤ a) && decide (0 ≤ b) | none => true)
+  | .restart _ => true
+  | .discover _ explore => explore.all fun e => decide (0 ≤ e.2.series) && decide (0 ≤ e.2.total)
+  | .update _ req => onceB req && req.all fun t => decide (0 ≤ t.series) && decide (0 ≤ t.total)
+  | .setReplicas n => decide ((n : Int) ≤ env.opt.maxShard)
+
+theorem step_wpos_all (swr : Swr) (env : Env) (hmm : env.opt.minShard ≤ env.opt.maxShard) (w : World) (op : Op)
+    (hb : wellFormedOp env op = true) (hw : WPos env w) : WPos env (step swr env w op) := by
+  cases op with
+  | cycle sc F b => exact step_wpos swr env hmm w _ rfl hw
+  | scrape j k r => exact step_wpos swr env hmm w _ hb hw
+  | restart j => exact step_wpos swr env hmm w _ rfl hw
+  | discover active explore => exact step_wpos swr env hmm w _ hb hw
+  | update j req =>
+    simp only [wellFormedOp, Bool.and_eq_true, onceB, List.all_eq_true, beq_iff_eq, decide_eq_true_eq] at hb
+    obtain ⟨honce, hpos⟩ := hb
+    have ho : Props.C10.Once req := fun t ht => honce t ht
+    obtain ⟨h1, h2, _⟩ := onShard_ws w j (fun sh => ⟨Sidecar.update sh.clock sh.sc req, sh.clock + 1⟩)
+      (fun sh _ => sinv_update _ _ _ ho _) hw.toWS
+    obtain ⟨h3, h4⟩ := onShard_spos w j (fun sh => ⟨Sidecar.update sh.clock sh.sc req, sh.clock + 1⟩) hw.toWS
+      (fun sh _ hp => spos_update _ _ _ _ ho hpos hp.st) hw.pos
+    exact ⟨⟨h1, by show ((onShard w j _).replicas : Int) ≤ _; rw [h2]; exact hw.max⟩, h3,
+      by show ∀ e ∈ (onShard w j _).explore, _; rw [h4]; exact hw.expl⟩
+  | setReplicas n =>
+    simp only [wellFormedOp, decide_eq_true_eq] at hb
+    exact ⟨⟨ws_resize w n hw.toWS, hb⟩, spos_resize w n hw.toWS hw.pos, hw.expl⟩
+
+theorem run_wpos_all (swr : Swr) (env : Env) (hmm : env.opt.minShard ≤ env.opt.maxShard) :
+    ∀ (ops : List Op) (w : World), (∀ op ∈ ops, wellFormedOp env op = true) → WPos env w → WPos env (run swr env w ops) := by
+  intro ops
+  induction ops with
+  | nil => intro w _ hw; exact hw
+  | cons op ops ih =>
+    intro w hb hw
+    exact ih (step swr env w op) (fun o ho => hb o (List.mem_cons_of_mem _ ho))
+      (step_wpos_all swr env hmm w op (hb op List.mem_cons_self) hw)
+
+/-- **no crash, whatever happened before**: after every history in the closed-loop model — cycles
+    with any faults, scrapes, restarts, discovery changes, assignments written from outside, external
+    resizing (with the side conditions of `wellFormedOp`) — starting from freshly started sidecars, a
+    coordination cycle with any fault pattern completes without crashing (max-process-series ≠ 0). -/
+theorem no_crash_any_history (swr : Swr) (env : Env) (hmm : env.opt.minShard ≤ env.opt.maxShard)
+    (hmp : env.opt.maxProc ≠ 0) (n : Nat) (active : List Hash) (explore : AL St) (hn : (n : Int) ≤ env.opt.maxShard)
+    (he : ∀ e ∈ explore, 0 ≤ e.2.series ∧ 0 ≤ e.2.total) (ops : List Op) (hops : ∀ op ∈ ops, wellFormedOp env op = true)
+    (sc : Sched) (F : List Fault) (b : Bool) :
+    (cycle swr sc (inputOf env (run swr env
+      { shards := List.replicate n freshShard, replicas := n, active := active, explore := explore } ops) F b)).crashed = false :=
+  cycle_noCrash swr sc _ hmp (nonNeg_inputOf_f env _ F b (run_wpos_all swr env hmm ops _ hops (wpos_fresh env n active explore hn he)))
 
 end Kvass.Loop
